@@ -16,7 +16,7 @@ GoodSphere(T) == Orbifold(T).curv[1] > 0
 InDomain(S) == /\ CompleteSym(S) /\ S.dim = 3 /\ Connected(S)
                /\ \A i \in 1..3, d \in Chambers(S) : S.v[i][d] \in {1, 2, 3, 4, 6}
                /\ \A d \in Chambers(S) : GoodSphere(Sub(S, <<0,1,2>>, d)) /\ GoodSphere(Sub(S, <<1,2,3>>, d))
-CoveringOK(C, S) == CompleteSym(C) /\ Connected(C) /\ C.n % S.n = 0 /\ IsCovering(C, S, StdProj(C, S))
+CoveringOK(C, S) == CompleteSym(C) /\ Connected(C) /\ C.n % S.n = 0 /\ IsCoverOf(C, S)
 CertOK(c, S) ==
    /\ CoveringOK(c.oc, S) /\ CoveringOK(c.cov, c.oc) /\ Oriented(c.cov) /\ BranchFree(c.cov)
    /\ H1(c.pres) = <<0, 0, 0>>
